@@ -239,6 +239,24 @@ class SockWorld:
             s.attrs["_writer"] = None
         return connected
 
+    def check_invariant_at_suspensions(self):
+        """Owicki-Gries obligation: the socket's own code re-establishes J1 before every suspension
+        (so assuming J1 after a suspension is justified).  Checked on the state the coroutine leaves
+        behind, before the interference replaces it."""
+        h = self.h
+
+        def check(reason):
+            s = self.sock
+            if s is None:
+                return
+            c = s.attrs["is_connected"]
+            r, w = s.attrs["_reader"], s.attrs["_writer"]
+            ok = And(sym.eq(c, True) if not isinstance(c, bool) else c, r is not None, w is not None) if (r is not None or w is not None) else Not(c)
+            both = (r is None) == (w is None)
+            h.oblige("J1 holds at every suspension point: is_connected <=> a reader and a writer are present",
+                     And(both, ok if (r is not None or w is not None) else Not(c)), kind="invariant")
+        self.w.havocs.insert(0, check)
+
     def enable_interference(self, queue_model=None):
         """From now on every suspension replaces the connection state by an arbitrary invariant state."""
         def havoc(reason):
